@@ -61,7 +61,9 @@ func (g *schemaGenerator) generateRootType() error {
 	}
 
 	rootTypeName := g.getRootTypeName(g.schema, g.schemaFileName)
-	if _, ok := g.output.declsByName[rootTypeName]; ok {
+	if decl, ok := g.output.declsByName[rootTypeName]; ok &&
+		decl.SchemaType == (*schemas.Type)(g.schema.ObjectAsType) {
+		// This schema's root type has been generated already.
 		return nil
 	}
 
